@@ -38,7 +38,7 @@ RULE = (
     "case = connection rate limit + steps (connect / request[DeviceDescriptorRead|AuthorizeRequest] / idle / disconnect), each step with "
     "received frames (T_ACK/T_NAK any number, numbered data expected/previous/other number x right/wrong type, T_Disconnect, T_Connect; "
     "from the peer or another device) at gaps {same loop iteration, next iterations, virtual seconds around 3 s / 6 s}; exhaustive core: "
-    "all sequences up to length 3 (quick) / 4 (thorough) over a 10-frame alphabet x {same iteration, later iteration} around the first request, "
+    "all sequences up to length 3 (quick) / 4 (thorough) over a 10-frame alphabet around the first request (all same-iteration/later-iteration gap patterns up to length 2 / 3, four patterns at the longest length), "
     "followed by a cleanly answered second request; non-trivial = at least one request that receives something other than exactly its own "
     "T_ACK followed by the expected response; distinct by case"
 )
@@ -346,20 +346,20 @@ def judge(ctx, case, obs) -> None:
     for rec in rx:
         if rec["kind"] == "data":
             pool.setdefault((rec["src"], rec["seq"]), []).append(rec)
-    taken: dict[tuple[str, int], int] = {}
+    taken: set[int] = set()
     for s in sent:
-        if s["tpci"] not in ("TAck", "TNak"):
-            continue
-        if s["tpci"] == "TNak":
+        if s["tpci"] != "TAck":
             continue  # a T_NAK is not an acknowledgement
-        key = (s["dst"], s["seq"])
-        i = taken.get(key, 0)
-        cands = pool.get(key, [])
-        if i >= len(cands) or (cands[i]["tick"], 0) > (s["tick"], 1):
+        # the acknowledged frame: the latest not yet acknowledged data frame with this number from this device
+        # received up to the iteration in which the T_ACK went out (the client answers within an iteration or two)
+        cands = [r for r in pool.get((s["dst"], s["seq"]), []) if r["i"] not in taken and r["tick"] <= s["tick"]]
+        if not cands:
             ctx.fail("C43:ack:without-data-frame", inp, f"T_ACK({s['seq']}) sent to {s['dst']} at t={s['t']} without a received data frame to acknowledge")
             continue
-        taken[key] = i + 1
-        rec = cands[i]
+        recent = [r for r in cands if r["tick"] >= s["tick"] - 3] or cands
+        good = [r for r in recent if r["ref_open"] and (r["fresh"] or r["repeat"])]
+        rec = good[-1] if good else recent[-1]  # several frames in one iteration: prefer the explanation that satisfies the rule
+        taken.add(rec["i"])
         if not rec["ref_open"]:
             ctx.fail("C43:ack:no-open-connection", inp, f"T_ACK({s['seq']}) sent to {s['dst']} for frame #{rec['i']}: no open connection to that device at arrival")
         elif not (rec["fresh"] or rec["repeat"]) and _ambiguous_before(obs, rec, returned):
@@ -420,17 +420,30 @@ def enum_case(slots) -> dict:
     return {"rate": 0, "steps": [["connect"], ["req", "dd", ev], ["req", "dd", CLEAN("dd")], ["disconnect"]]}
 
 
-def _enum_shard(ctx, L: int, prefix) -> None:
+def gap_patterns(L: int, full: bool) -> list[tuple[str, ...]]:
+    """Gap patterns of the exhaustive core: all 2^L when `full`, else four representative ones
+    (all later iterations; burst after the first; burst right at transmission; last two together)."""
+    if full or L <= 2:
+        return list(itertools.product("sy", repeat=L))
+    pats = [("y",) * L, ("y",) + ("s",) * (L - 1), ("s",) * L, ("y",) * (L - 1) + ("s",)]
+    return sorted(set(pats))
+
+
+def _enum_shard(ctx, L: int, first, full: bool) -> None:
     n = nt = 0
-    prefix = [tuple(p) for p in prefix]
-    for tail in itertools.product(SLOTS, repeat=L - len(prefix)):
-        slots = prefix + list(tail)
-        case = enum_case(slots)
-        check_case(ctx, case)
-        n += 1
-        nt += 1 if nontrivial(case) else 0
-        if n % 97 == 1:
-            ctx.sample({"enum": "".join(("," if g == "y" else "") + k for g, k in slots)})
+    keys = list(ALPHABET)
+    heads = [first] if first is not None else [None]
+    for head in heads:
+        for tail in itertools.product(keys, repeat=L - (1 if head else 0)):
+            ks = ([head] if head else []) + list(tail)
+            for pat in gap_patterns(L, full):
+                slots = list(zip(pat, ks))
+                case = enum_case(slots)
+                check_case(ctx, case)
+                n += 1
+                nt += 1 if nontrivial(case) else 0
+                if n % 197 == 1:
+                    ctx.sample({"enum": "".join(("," if g == "y" else "") + k for g, k in slots)})
     ctx.bulk(n, nt, f"enum-L{L}")
 
 
@@ -542,7 +555,7 @@ def _special_shard(ctx, which: str) -> None:
     elif which == "timed":
         # one or two frames at every pair of instants around the ACK / response timeouts
         n = 0
-        times = [0.5, 2.9, 3.0, 3.1, 5.9, 6.0, 6.1, 8.9, 9.0, 9.1, 11.9, 12.0, 12.1]
+        times = [0.5, 2.9, 3.0, 3.1, 5.9, 6.0, 6.1, 8.9, 9.0, 9.1, 11.9, 12.0, 12.1] if not ctx.quick else [2.9, 3.0, 3.1, 6.0, 9.0, 9.1]
         for t1 in times:
             for k1 in ("a0", "d0", "x", "n0", "a1"):
                 for t2 in (None, 0.0, 0.1, 2.9, 3.0, 6.0):
@@ -562,19 +575,20 @@ def run(ctx) -> None:
     L = ctx.n(3, 4)
     jobs = []
     for length in range(0, L + 1):
-        if length <= 2:
-            jobs.append((length, []))
-        elif length == 3:
-            for s in SLOTS:
-                jobs.append((length, [s]))
+        full = length <= ctx.n(2, 3)
+        if length <= 1:
+            jobs.append((length, None, full))
         else:
-            for s in itertools.product(SLOTS, repeat=2):
-                jobs.append((length, list(s)))
+            for k in ALPHABET:
+                jobs.append((length, k, full))
     parallel(ctx, _enum_shard, jobs)
     parallel(ctx, _special_shard, [("wrap",), ("noconn",), ("timed",)])
-    parallel(ctx, _hyp_shard, [(ctx.n(150, 2500),)] * 16)
+    parallel(ctx, _hyp_shard, [(ctx.n(100, 2500),)] * 16)
     ctx.exhaustive = False
-    ctx.notes["exhaustive_core"] = f"all sequences of <= {L} received frames over {len(ALPHABET)} frame kinds x 2 gaps around the first request"
+    ctx.notes["exhaustive_core"] = (
+        f"all sequences of <= {L} received frames over {len(ALPHABET)} frame kinds around the first request; every same-iteration/later-iteration gap pattern "
+        f"up to length {ctx.n(2, 3)}, four representative gap patterns at length {L}"
+    )
     ctx.notes["time_bound_s"] = "1/rate_limit + 12"
 
 
